@@ -168,4 +168,107 @@ theorem isLowDER_derEncode (r s : Nat) (hl : (derIntBody r).length + (derIntBody
   · have h1 : ¬ 0 < compareBigEndian (derIntBody s) [0] := fun h => hs0 (c0.mp h)
     simp [h1, hs0]
 
+/-! ### fixed-width big-endian form and the padding of `sign_compact` -/
+
+theorem beBytes_eq (w v : Nat) (h : v < 256 ^ w) :
+    beBytes w v = List.replicate (w - (beMin v).length) 0 ++ beMin v := by
+  unfold beBytes
+  induction w generalizing v with
+  | zero =>
+    have : v = 0 := by simpa using h
+    subst this; simp [leBytes, beMin_zero]
+  | succ w ih =>
+    have hq : v / 256 < 256 ^ w := by rw [Nat.pow_succ] at h; omega
+    simp only [leBytes, List.reverse_cons]
+    rw [ih (v / 256) hq]
+    by_cases h0 : v = 0
+    · subst h0
+      simp only [Nat.zero_div, beMin_zero, List.length_nil, Nat.sub_zero, List.append_nil, Nat.zero_mod]
+      exact (List.replicate_succ' ..).symm
+    · have hl := beMin_length_le w (v / 256) hq
+      rw [beMin_pos h0]
+      simp only [List.length_append, List.length_singleton, List.append_assoc]
+      have : w + 1 - ((beMin (v / 256)).length + 1) = w - (beMin (v / 256)).length := by omega
+      rw [this]
+
+theorem pad32_aux (m : Bytes) (k : Nat) (hk : m.length ≤ k) :
+    (List.replicate k (0 : UInt8) ++ m).drop m.length = List.replicate (k - m.length) 0 ++ m := by
+  rw [List.drop_append_of_le_length (by simpa using hk), List.drop_replicate]
+
+/-- the 32-byte field `sign_compact` builds from the DER content octets of `v < 2^256` is the
+    fixed-width big-endian form of `v`; the assertion in front of it never fires -/
+theorem pad32_derIntBody (v : Nat) (h : v < 2 ^ 256) :
+    pad32 (derIntBody v) = .ok (Secp256k1.be32 v) := by
+  have h' : v < 256 ^ 32 := by simpa using h
+  have hl := beMin_length_le 32 v h'
+  unfold Secp256k1.be32
+  rw [beBytes_eq 32 v h']
+  rcases derIntBody_cases v with ⟨hm, e⟩ | ⟨b, bs, hm, _, e⟩ | ⟨b, bs, hm, _, _, e⟩
+  · rw [e, hm]; decide
+  · rw [e, hm]
+    rw [hm] at hl
+    unfold pad32
+    have hc : (0 :: b :: bs).length ≤ 32 ∨ (0 :: b :: bs).take ((0 :: b :: bs).length - 32) = [0] := by
+      by_cases h32 : (b :: bs).length = 32
+      · right
+        have : (0 :: b :: bs).length - 32 = 1 := by simp at h32 ⊢; omega
+        rw [this]; rfl
+      · left; simp at hl h32 ⊢; omega
+    rw [if_pos hc]
+    congr 1
+    have e1 : List.replicate 32 (0 : UInt8) ++ 0 :: b :: bs = List.replicate 33 0 ++ (b :: bs) := by
+      rw [List.replicate_succ' (n := 32)]; simp
+    rw [e1]
+    have : (0 :: b :: bs).length = (b :: bs).length + 1 := by simp
+    rw [this, ← List.drop_drop]
+    rw [pad32_aux (b :: bs) 33 (by omega)]
+    have hd : 33 - (b :: bs).length = (32 - (b :: bs).length) + 1 := by omega
+    rw [hd, List.replicate_succ]
+    simp
+  · rw [e, hm]
+    rw [hm] at hl
+    unfold pad32
+    rw [if_pos (Or.inl hl)]
+    congr 1
+    exact pad32_aux (b :: bs) 32 hl
+
+/-! ### `DERSignature.deserialize` on strict DER -/
+
+theorem serRead_one (b : UInt8) (rest : Bytes) : Model.Wire.serRead 1 (b :: rest) = .ok ([b], rest) := by
+  simp [Model.Wire.serRead, Model.Wire.MAX_SIZE]
+
+theorem deBytes_short (body rest : Bytes) (h : body.length < 0xfd) :
+    Model.Wire.deBytes (UInt8.ofNat body.length :: (body ++ rest)) = .ok (body, rest) := by
+  have hl : (UInt8.ofNat body.length).toNat = body.length := toNat_ofNat_lt (by omega)
+  have hm : ¬ body.length > Model.Wire.MAX_SIZE := by simp [Model.Wire.MAX_SIZE]; omega
+  unfold Model.Wire.deBytes Model.Wire.deVarInt
+  rw [serRead_one]
+  simp only [bind, Except.bind, leNat, hl, Nat.mul_zero, Nat.add_zero, h, if_true, pure, Except.pure]
+  unfold Model.Wire.serRead
+  simp [hm]
+
+/-- `DERSignature.deserialize` returns the content octets of r and s of a strict DER signature -/
+theorem derSigDeserialize_derEncode (r s : Nat) (hl : (derIntBody r).length + (derIntBody s).length ≤ 123) :
+    derSigDeserialize (derEncode r s) = .ok (derIntBody r, derIntBody s) := by
+  have e : derEncode r s = 0x30 :: UInt8.ofNat (derInt r ++ derInt s).length :: ((derInt r ++ derInt s) ++ []) := by
+    simp [derEncode]
+  have hc : (derInt r ++ derInt s).length < 0xfd := by simp [derInt]; omega
+  have e1 : derInt r ++ derInt s = 0x02 :: UInt8.ofNat (derIntBody r).length :: (derIntBody r ++ derInt s) := by
+    simp [derInt]
+  have e2 : derInt s = 0x02 :: UInt8.ofNat (derIntBody s).length :: (derIntBody s ++ []) := by
+    simp [derInt]
+  unfold derSigDeserialize
+  rw [e, serRead_one]
+  simp only [bind, Except.bind, ne_eq, not_true_eq_false, if_false]
+  rw [deBytes_short _ _ hc]
+  simp only []
+  rw [e1, serRead_one]
+  simp only [not_true_eq_false, if_false]
+  rw [deBytes_short _ _ (by omega)]
+  simp only []
+  rw [e2, serRead_one]
+  simp only [not_true_eq_false, if_false]
+  rw [deBytes_short _ _ (by omega)]
+  simp [pure, Except.pure]
+
 end BtcVerif
